@@ -1,5 +1,6 @@
 #!/usr/bin/env python3
 
+import numbers
 import numpy as np
 
 
@@ -100,7 +101,7 @@ def sequenceHysteresisFilter( data, gateSize ):
         raise ValueError( "Input data dimension should be 1" )
     if data.shape[ 0 ] < 2:
         raise ValueError( "Input data length should be at least 2" )
-    if not isinstance( gateSize, int ) and not isinstance( gateSize, float ):
+    if not isinstance( gateSize, numbers.Real ):
         raise ValueError( "gateSize must be a scalar" )
     if gateSize <= 0:
         raise ValueError( "gateSize should be greater than zero" )
